@@ -162,7 +162,7 @@ def check_property(prop, tier, only=None, jobs_n=None, seed=0):
     if not hs:
         print("no harnesses registered for", prop)
         return 2
-    scale = float(os.environ.get("VERIF_TIMEOUT_SCALE", "1"))
+    scale = float(os.environ.get("VERIF_TIMEOUT_SCALE", "2.5"))   # harness timeouts are ~2x measured cost; the margin covers slower hosts
     jobs_n = jobs_n or int(os.environ.get("VERIF_JOBS", str(min(16, os.cpu_count() or 4))))
     known = load_known()
     lines = []
